@@ -105,7 +105,10 @@ func (d *distinctEngine) valueDistinct(f *ssa.Function, v ssa.Value, depth int) 
 	v = resolve(v)
 	switch x := v.(type) {
 	case *ssa.Phi:
-		for _, e := range x.Edges {
+		if mapKeySlice(f, x) || seenFilterSlice(f, x) {
+			return true
+		}
+		for _, e := range phiLeaves(x) {
 			if !d.valueDistinct(f, e, depth+1) {
 				return false
 			}
@@ -118,7 +121,7 @@ func (d *distinctEngine) valueDistinct(f *ssa.Function, v ssa.Value, depth int) 
 		return false
 	case *ssa.Call:
 		if builtinName(x) == "append" {
-			return mapKeySlice(f, x)
+			return mapKeySlice(f, x) || seenFilterSlice(f, x)
 		}
 		return d.callDistinct(f, x, depth)
 	case *ssa.Const:
